@@ -188,6 +188,7 @@ pub fn entry_points<S: Src>(s: &mut S) {
         if !valid_hand(&w) {
             // the unvalidated entry points are only specified on hands they accept
             let h2 = h;
+            check!(s, !h2.is_valid(), "C01.entry_points.is_valid_exact");
             check!(s, h2.hand_rank_value_validated() == 0, "C01.entry_points.validated_zero_iff_not_valid");
             check!(s, evaluate::five_cards(w) == 0, "C01.entry_points.free_function_is_validated");
             return;
